@@ -15,11 +15,12 @@ import (
 // the receiver's own fresh op id.
 func c04ReceivedContext(ctx *core.Ctx, r *RT) {
 	ctx.Rule("C04.S8", "the received header map is exactly the decoded one: the reader's context starts with empty header maps and receives only decoded pairs (plus its own op id)", 3)
-	rr := r.Fn("C04.S8", "(*FProtocol).ReadRequestHeader")
-	if rr == nil {
+	rr0 := r.Fn("C04.S8", "(*FProtocol).ReadRequestHeader")
+	if rr0 == nil {
 		return
 	}
-	rn := ssax.Name(rr)
+	rn := ssax.Name(rr0)
+	rr, hdrs := headerConsumer(r, rr0) // the part that builds the context may be an extracted helper
 	opid := constString(r, "opIDHeader")
 	// the value whose AddRequestHeader is called
 	var recvs []ssa.Value
@@ -61,12 +62,14 @@ func c04ReceivedContext(ctx *core.Ctx, r *RT) {
 	}
 	var al *ssa.Alloc
 	var ctor *ssa.Function
+	var ctorCall *ssa.Call
 	switch x := origin.(type) {
 	case *ssa.Alloc:
 		al = x
 	case *ssa.Call:
 		if c, ok := ssax.AsCall(x); ok && c.Static != nil && c.Static.Pkg == r.Pkg {
 			ctor = c.Static
+			ctorCall = x
 			for _, vs := range ReturnedValues(ctor) {
 				v := ssax.Strip(vs[0])
 				if mi, ok := v.(*ssa.MakeInterface); ok {
@@ -102,7 +105,16 @@ func c04ReceivedContext(ctx *core.Ctx, r *RT) {
 					continue
 				}
 				n++
-				mm, isMM := ssax.Strip(st.Val).(*ssa.MakeMap)
+				val := ssax.Strip(st.Val)
+				// a constructor that takes the maps as parameters: look at what this call passes
+				if pr, isP := val.(*ssa.Parameter); isP && ctorCall != nil {
+					for i, cp := range ctor.Params {
+						if cp == pr && i < len(ctorCall.Call.Args) {
+							val = ssax.Strip(ctorCall.Call.Args[i])
+						}
+					}
+				}
+				mm, isMM := val.(*ssa.MakeMap)
 				if !isMM {
 					ok, why = false, "the map stored at "+r.IPos(st)+" is not a fresh make(map)"
 					continue
@@ -120,16 +132,7 @@ func c04ReceivedContext(ctx *core.Ctx, r *RT) {
 		ctx.Check(ok, "C04.S8", where+" › "+field+" starts empty", fnPos(r, host), "make(map[string]string) with no entries", "the received context starts with headers that were never on the wire ("+why+"): reading back what was written no longer yields the identical map")
 	}
 	// every AddRequestHeader in the reader: a decoded pair or the op id
-	var headers ssa.Value
-	for _, c := range ssax.Calls(rr) {
-		if c.Static != nil && c.Static.Pkg == r.Pkg && returnsHeaderMap(c.Static) {
-			for _, u := range *c.Instr.Value().Referrers() {
-				if e, ok := u.(*ssa.Extract); ok && e.Index == 0 {
-					headers = e
-				}
-			}
-		}
-	}
+	headers := hdrs
 	for _, c := range adds {
 		args := c.Args()
 		ok := false
@@ -151,5 +154,5 @@ func c04ReceivedContext(ctx *core.Ctx, r *RT) {
 
 func fieldName(fa *ssa.FieldAddr) string {
 	t := fa.X.Type().Underlying().(*types.Pointer).Elem().Underlying().(*types.Struct)
-	return t.Field(fa.Field).Name()
+	return structFieldName(t, fa.Field)
 }
